@@ -1,4 +1,4 @@
-\* simulation: 4 producers, producer 3 Byzantine (equivocates, Confirms filled the honest way per branch, some of its blocks fail in execute()), 3 correct nodes, up to 16 blocks, 2 restarts, runs of blocks children first; all properties
+\* simulation: 4 producers, producer 3 Byzantine (equivocates, Confirms filled the honest way per branch), 3 correct nodes, up to 16 blocks, 2 restarts; all properties
 SPECIFICATION Spec
 CONSTANTS
   N = 4
@@ -9,8 +9,8 @@ CONSTANTS
   MaxRestarts = 2
   ByzMode = "branch"
   ByzRanges <- R123
-  Runs = TRUE
-  BadKinds <- OkExec
+  Runs = FALSE
+  BadKinds <- OnlyOk
   Fixes <- AllFixes
 INVARIANTS TypeOK LibOnMain ConfirmsOnMain ProposalsOnMain StatusBestIsBest Agreement HonestConfirms
 PROPERTIES LibMonotone Final NoForkBelowLib LibQuorum RestoreEqualsRecompute AfterAbandonedReorgStatusMatchesMainChain
